@@ -165,6 +165,12 @@ def reported_transform_violations(space, d, M):
     return []
 
 
+def _decoy_axes(plt):
+    """A second figure created after the drawing: pyplot's "current axes" are now NOT the drawing's, as in any
+    program that works with two drawings; everything must still land on drawing.ax (the checks read drawing.ax only)."""
+    plt.figure(figsize=(1, 1)).add_subplot()
+
+
 def new_drawing(model, tf, hist=None, mname=None):
     import matplotlib.pyplot as plt
     from geometry_tools import drawtools
@@ -172,9 +178,9 @@ def new_drawing(model, tf, hist=None, mname=None):
 
     def make(t):
         return drawtools.HyperbolicDrawing(model=lib_model(model, mname), transform=t)
-    if hist is not None:
-        return apply_history("hyperbolic", make, hist)
-    return make(lib_transform("hyperbolic", tf))
+    d = apply_history("hyperbolic", make, hist) if hist is not None else make(lib_transform("hyperbolic", tf))
+    _decoy_axes(plt)
+    return d
 
 
 def new_proj_drawing(chart, tf, hist=None):
@@ -184,9 +190,9 @@ def new_proj_drawing(chart, tf, hist=None):
 
     def make(t):
         return drawtools.ProjectiveDrawing(chart_index=chart, transform=t)
-    if hist is not None:
-        return apply_history("projective", make, hist)
-    return make(lib_transform("projective", tf))
+    d = apply_history("projective", make, hist) if hist is not None else make(lib_transform("projective", tf))
+    _decoy_axes(plt)
+    return d
 
 
 def hist_tag(case, lab, v):
